@@ -69,7 +69,7 @@ fn build_image(ws: &[W], k: usize, cut: usize) -> Vec<u8> {
     img
 }
 
-fn judge_image(img: &[u8], base: &Baseline, before_finalize: bool, r: &mut Rng) -> (bool, Option<(String, String)>) {
+fn judge_image(img: &[u8], base: &Baseline, before_finalize: bool, r: &mut Rng, complete: &[u8]) -> (bool, Option<(String, String)>) {
     // accepted?
     let rd = guarded(|| E57Reader::new(Cursor::new(img.to_vec())));
     match rd {
@@ -80,6 +80,12 @@ fn judge_image(img: &[u8], base: &Baseline, before_finalize: bool, r: &mut Rng) 
                 return (true, Some(("accepted-before-finalize".into(), format!("an image from before the top-level finalize call was accepted ({} bytes); it lists {} point clouds and {} images", img.len(), rd.pointclouds().len(), rd.images().len()))));
             }
         }
+    }
+    // "accepts what is on the device only if it is already complete": every byte the completed file holds
+    // must already be there (an accepted image may only differ where the recorded writes rewrite identical bytes)
+    if img != complete {
+        let first = img.iter().zip(complete.iter()).position(|(a, b)| a != b).unwrap_or(img.len().min(complete.len()));
+        return (true, Some(("accepted-incomplete-image".into(), format!("the reader accepts an image of {} bytes that differs from the completed file ({} bytes) first at byte {} (page {}, in-page {})", img.len(), complete.len(), first, first / 1024, first % 1024))));
     }
     // accepted: listing and all reads must match the completed file (judge_variant re-opens and compares everything)
     let o = judge_variant(img, base, r, false, "crash-image");
@@ -163,7 +169,7 @@ pub fn run(a: &Args, rep: &mut Reporter) {
                     _ => "torn-checksum",
                 };
                 cover.hit(&format!("cut:{}:{}", kind, cutc));
-                let (accepted, v) = judge_image(&img, &base, before, &mut r);
+                let (accepted, v) = judge_image(&img, &base, before, &mut r, &complete);
                 if accepted {
                     if v.is_none() {
                         accepted_equal += 1;
@@ -194,7 +200,7 @@ pub fn run(a: &Args, rep: &mut Reporter) {
             let img = d2.bytes();
             images += 1;
             cover.hit("cut:dropped-without-finalize");
-            let (accepted, v) = judge_image(&img, &base, true, &mut r);
+            let (accepted, v) = judge_image(&img, &base, true, &mut r, &complete);
             if !accepted {
                 rejected += 1;
             }
